@@ -156,10 +156,74 @@ func (rr *rulesRunner) nodeText(n ast.Node) []byte {
 
 	// Fallback to the printer.
 	var buf bytes.Buffer
-	if err := printer.Fprint(&buf, rr.ctx.Fset, n); err != nil {
+	if err := rr.printNode(&buf, n); err != nil {
 		panic(err)
 	}
 	return buf.Bytes()
+}
+
+// printNode prints n the way go/printer does.
+// The printer knows expressions, statements, declarations and specs;
+// the other nodes a pattern can capture (gogrep node lists, fields,
+// field lists) are printed part by part.
+func (rr *rulesRunner) printNode(buf *bytes.Buffer, n ast.Node) error {
+	switch n := n.(type) {
+	case *gogrep.NodeSlice:
+		sep := ", "
+		switch n.Kind {
+		case gogrep.StmtNodeSlice, gogrep.SpecNodeSlice, gogrep.DeclNodeSlice:
+			sep = "\n"
+		}
+		for i := 0; i < n.Len(); i++ {
+			if i != 0 {
+				buf.WriteString(sep)
+			}
+			if err := rr.printNode(buf, n.At(i)); err != nil {
+				return err
+			}
+		}
+		return nil
+
+	case *ast.FieldList:
+		if n.Opening.IsValid() {
+			buf.WriteByte('(')
+		}
+		for i, field := range n.List {
+			if i != 0 {
+				buf.WriteString(", ")
+			}
+			if err := rr.printNode(buf, field); err != nil {
+				return err
+			}
+		}
+		if n.Closing.IsValid() {
+			buf.WriteByte(')')
+		}
+		return nil
+
+	case *ast.Field:
+		for i, name := range n.Names {
+			if i != 0 {
+				buf.WriteString(", ")
+			}
+			buf.WriteString(name.Name)
+		}
+		if n.Type != nil {
+			if len(n.Names) != 0 {
+				buf.WriteByte(' ')
+			}
+			if err := printer.Fprint(buf, rr.ctx.Fset, n.Type); err != nil {
+				return err
+			}
+		}
+		if n.Tag != nil {
+			buf.WriteByte(' ')
+			buf.WriteString(n.Tag.Value)
+		}
+		return nil
+	}
+
+	return printer.Fprint(buf, rr.ctx.Fset, n)
 }
 
 func (rr *rulesRunner) fileBytes() []byte {
